@@ -32,7 +32,9 @@ class C11(Spec):
     prop = "C11"
     coq_targets = ["Props/C11.vo"]
     prop_module = "Props.C11"
-    theorems = []
+    theorems = ["C11_bitwise_exact", "C11_bitwise_short", "C11_bitwise_no_panic", "C11_bit_ops", "C11_bulk_exact",
+                "C11_bulk_short", "C11_bulk_no_panic", "C11_write_exact", "C11_read_mirror", "C11_bit_ops_copies",
+                "C11_buffer_inv_step", "C11_buffer_inv", "C11_buffer_refines"]
     builds = [("default", "dev"), ("default", "release")]
     timeout_per_chunk = 300
     level_text = ("Bit-copy correctness theorems over the byte-level model of slice.rs/buffer.rs against the naive "
